@@ -294,14 +294,17 @@ def run_history(ctx, seed):
                     world.settle(advance=False)
                     old_conns = [c for c in pw.live_pool_conns() if c.orphaned_threshold_reached]
                     pw.hold_handshake[0] = False
-                    order = rng.random() < 0.5
-                    if order:
+                    order = rng.choice([0, 1, 2, 2])
+                    if order == 1:
                         pw.release_handshakes()
                     for c in old_conns[:1]:
                         how = rng.random() < 0.5
-                        steps_log.append(('fail-while-replacement-completes', c.sim_id, 'reset' if how else 'eof'))
-                        net.server_close(c, reset=how)
-                    if not order:
+                        steps_log.append(('fail-while-replacement-completes', c.sim_id, 'reset' if how else 'eof', order))
+                        if order == 2:
+                            pw.fail_when_ready[0] = (c, how)      # the node drops it when it answers the replacement's STARTUP
+                        else:
+                            net.server_close(c, reset=how)
+                    if order != 1:
                         pw.release_handshakes()
                     pw.ch.p_preempt = 0.5
                     world.settle(advance=False)
